@@ -16,7 +16,7 @@ Lemma unobservable : forall evs units d d' m,
   observable (run hf units d m evs) = observable (run hf units d' m (strip evs)).
 Proof.
   induction evs as [|ev rest IH]; intros units d d' m; [destruct m; reflexivity|].
-  destruct ev as [f|[lvl|]| |]; cbn [strip run].
+  destruct ev as [f| |[lvl|]| | |]; cbn [strip run].
   - destruct m as [|r].
     + destruct (hf units f) as [[[bytes|e|] units'] lg]; try reflexivity.
       specialize (IH units' d d' (match bytes with [] => MIdle | _ => MWriting bytes end)).
@@ -24,6 +24,7 @@ Proof.
       destruct (run hf units' d' _ (strip rest)) as [[[[ws2 u2] lg2] dd2] e2].
       cbn [observable] in *. inversion IH; subst. reflexivity.
     + apply IH.
+  - destruct m as [|r]; [reflexivity|apply IH].
   - apply IH.
   - reflexivity.
   - reflexivity.
@@ -32,6 +33,7 @@ Proof.
     destruct (run hf units d MIdle rest) as [[[[ws u] lg'] dd] e].
     destruct (run hf units d' MIdle (strip rest)) as [[[[ws2 u2] lg2] dd2] e2].
     cbn [observable] in *. inversion IH; subst. reflexivity.
+  - destruct m as [|r]; [apply IH|reflexivity].
 Qed.
 
 (* inserting a ChangeDecoding anywhere changes nothing observable *)
@@ -41,7 +43,7 @@ Proof.
   rewrite (unobservable (pre ++ ECommand (ChangeDecoding lvl) :: post) units d d m).
   rewrite (unobservable (pre ++ post) units d d m).
   f_equal. f_equal. clear. induction pre as [|ev pre IH]; [reflexivity|].
-  destruct ev as [f|[l|]| |]; cbn [app strip]; rewrite ?IH; reflexivity.
+  destruct ev as [f| |[l|]| | |]; cbn [app strip]; rewrite ?IH; reflexivity.
 Qed.
 
 (* ---------------------------------------------------------------- Shutdown / closed channel *)
@@ -58,15 +60,17 @@ Lemma shutdown_ends ev post : ends ev -> forall pre units d m,
 Proof.
   intros Hev. induction pre as [|e0 pre IH]; intros units d m.
   - cbn [app]. destruct Hev as [-> | ->]; destruct m; reflexivity.
-  - cbn [app]. destruct e0 as [f|[lvl|]| |]; cbn [run].
+  - cbn [app]. destruct e0 as [f| |[lvl|]| | |]; cbn [run].
     + destruct m as [|r]; [|apply IH].
       destruct (hf units f) as [[[bytes|e|] units'] lg]; try reflexivity.
       rewrite IH. destruct (run hf units' d _ pre) as [[[[ws u] lg'] dd] e]. reflexivity.
+    + destruct m as [|r]; [reflexivity|apply IH].
     + apply IH.
     + reflexivity.
     + reflexivity.
     + destruct m as [|r]; [apply IH|]. rewrite IH.
       destruct (run hf units d MIdle pre) as [[[[ws u] lg'] dd] e]. reflexivity.
+    + destruct m as [|r]; [apply IH|reflexivity].
 Qed.
 
 (* write_reply: while a reply is pending any number of decode level changes may arrive; a Shutdown
@@ -92,6 +96,14 @@ Proof.
   destruct Hev as [-> | ->]; cbn [run]; rewrite app_nil_r; reflexivity.
 Qed.
 
+(* ... if the write FAILS, the session ends with the I/O error: handler effects in place, reply not
+   delivered, nothing further handled *)
+Lemma write_failed units d f b bs units' lg levels post : hf units f = (Ok (b :: bs), units', lg) ->
+  run hf units d MIdle (EFrame f :: changes levels ++ EWriteFailed :: post) = ([], units', lg, last levels d, RIo).
+Proof.
+  intros Hf. cbn [run]. rewrite Hf. rewrite run_changes. cbn [run]. rewrite app_nil_r. reflexivity.
+Qed.
+
 (* ... and if the write completes instead, the reply is delivered and the loop goes on *)
 Lemma write_done units d f b bs units' lg levels rest : hf units f = (Ok (b :: bs), units', lg) ->
   run hf units d MIdle (EFrame f :: changes levels ++ EWriteDone :: rest) =
@@ -109,11 +121,13 @@ Lemma run_ext {St E} (hf hf' : ucfg St -> frame -> outcome E (list N) * ucfg St 
   run hf units d m evs = run hf' units d m evs.
 Proof.
   intros Hagree. induction evs as [|ev rest IH]; intros units d m Hall; [reflexivity|].
-  inversion Hall as [|? ? Hev Hrest]; subst. destruct ev as [f|[lvl|]| |]; cbn [run]; try reflexivity.
+  inversion Hall as [|? ? Hev Hrest]; subst. destruct ev as [f| |[lvl|]| | |]; cbn [run]; try reflexivity.
   - destruct m as [|r]; [|apply IH; assumption]. rewrite <- Hagree by assumption.
     destruct (hf units f) as [[[bytes|e|] units'] lg]; try reflexivity. rewrite IH by assumption. reflexivity.
+  - destruct m as [|r]; [reflexivity|apply IH; assumption].
   - apply IH; assumption.
   - destruct m as [|r]; [apply IH; assumption|]. rewrite IH by assumption. reflexivity.
+  - destruct m as [|r]; [apply IH; assumption|reflexivity].
 Qed.
 
 Section Model.
@@ -139,13 +153,15 @@ Lemma ok_run_end l a : forall evs units d m,
   no_failure (snd (run (fun u f => ok_result (E := serr) (ref_handle_frame H l a u f)) units d m evs)).
 Proof.
   induction evs as [|ev rest IH]; intros units d m; [destruct m; exact I|].
-  destruct ev as [f|[lvl|]| |]; cbn [run]; try exact I.
+  destruct ev as [f| |[lvl|]| | |]; cbn [run]; try exact I.
   - destruct m as [|r]; [|apply IH]. destruct (ref_handle_frame H l a units f) as [[bytes units'] lg]. cbn [ok_result].
     specialize (IH units' d (match bytes with [] => MIdle | _ => MWriting bytes end)).
     destruct (run _ units' d _ rest) as [[[[ws u] lg'] dd] e]. exact IH.
+  - destruct m as [|r]; [exact I|apply IH].
   - apply IH.
   - destruct m as [|r]; [apply IH|]. specialize (IH units d MIdle).
     destruct (run _ units d MIdle rest) as [[[[ws u] lg'] dd] e]. exact IH.
+  - destruct m as [|r]; [apply IH|exact I].
 Qed.
 
 Theorem session_run_never_fails l a units d evs : events_ok l evs -> no_failure (snd (session_run H l a units d evs)).
@@ -168,6 +184,11 @@ Theorem session_write_cut l a units d f b bs units' lg levels ev post :
   handle_frame H l a units f = (Ok (b :: bs), units', lg) -> ends ev ->
   session_run H l a units d (EFrame f :: changes levels ++ ev :: post) = ([], units', lg, last levels d, RShutdown).
 Proof. apply write_cut. Qed.
+
+Theorem session_write_failed l a units d f b bs units' lg levels post :
+  handle_frame H l a units f = (Ok (b :: bs), units', lg) ->
+  session_run H l a units d (EFrame f :: changes levels ++ EWriteFailed :: post) = ([], units', lg, last levels d, RIo).
+Proof. apply write_failed. Qed.
 
 Theorem session_write_done l a units d f b bs units' lg levels rest :
   handle_frame H l a units f = (Ok (b :: bs), units', lg) ->
